@@ -32,7 +32,7 @@ def cases(rng, tier):
         m = rng.randint(1, 50) if rng.random() < 0.5 else rng.randint(1, 8)
         a = rng.values(m) if kind not in ("oversample",) or rng.random() < 0.4 else rng.increasing(m, jitter=rng.random() < 0.5)
         n = rng.randint(1, 16)
-        c = {"kind": kind, "a": [str(v) for v in a], "n": n}
+        c = {"kind": kind, "a": [str(v) for v in a], "n": n, "argrep": S.pick_argrep(rng, 0.7)}
         if kind == "oversample":
             c["sub"] = rng.choice(["lin", "pc"])
         elif kind == "extendlin":
@@ -124,6 +124,12 @@ def run_impl(c):
     from traffic_weaver.interval import IntervalArray
     from traffic_weaver.process import average
     k, n = c["kind"], c["n"]
+    rep = c.get("argrep", "plain")
+    if k in ("oversample", "extendlin", "extendconst", "roundtrip", "average"):
+        # the count as int or as a NumPy integer (int64 / int32; the narrowest type that holds it where the pinned code
+        # itself copes with narrow types: the piece-wise constant oversampling). 0-d arrays are not counts for these helpers.
+        narrow = k == "oversample" and c.get("sub") == "pc"
+        n = S.count(n, {"0d": "alt"}.get(rep, rep), narrow=narrow)
     a = S.arr(floats(A(c)), dtype=float)
     try:
         if k == "oversample":
@@ -136,7 +142,7 @@ def run_impl(c):
         if k == "extendconst":
             return {"ok": lst(sau.extend_constant(a, n, direction=c["dir"]))}
         if k == "appendone":
-            x, y = sau.append_one_sample(S.arr(floats(A(c, "x"))), a, make_periodic=c["periodic"])
+            x, y = sau.append_one_sample(S.arr(floats(A(c, "x"))), a, make_periodic=S.flag(c["periodic"], rep))
             return {"ok": [lst(x), lst(y)]}
         if k == "integral":
             return {"ok": lst(sau.integral(S.arr(floats(A(c, "x"))), a, c["rule"]))}
